@@ -165,7 +165,18 @@ def check(case):
     if run.escaped is not None:
         res.fail("C14.escape", "exception escaped run() with summary reporters: %r" % (run.escaped,))
         return res
-    counts, failed, errored = census(run.features, runcheck.ran_object_lookup(run))
+    lookup = runcheck.ran_object_lookup(run)
+    counts, failed, errored = census(run.features, lookup)
+    # -- what the RUN demands (reference model) of each scenario, whatever behave's model says afterwards
+    floors = runcheck.status_floor(ref, prog)
+    inst_names = [i["name"] for _f, i in runcheck.instances(prog)]
+    for f in run.features:
+        for s in f.walk_scenarios():
+            want_class = floors.get(s.name)
+            if want_class and inst_names.count(s.name) == 1 and \
+                    runcheck.status_class(lookup(s).status.name) != want_class:
+                res.fail("C14.status-vs-run", "scenario %r ended in the %s class in the run (reference model) but is "
+                         "counted as %s" % (s.name, want_class, lookup(s).status.name))
     reps = run.config.reporters
     rep_v1 = reps[0]
     # the collector implementation (model visitor), fed with the model after the run
